@@ -93,6 +93,23 @@ PerName(net, lim) ==
 \* one client question: its own name and at most MaxCnameLookups alias targets
 Bound(net, lim) == (MaxCnameLookups + 1) * PerName(net, lim)
 
+\* recursion_limit bounds how deep aliases are followed: the question's own name is at depth 0, the target
+\* of an alias received in a response about a name at depth d is at depth d + 1 (first sighting counts).
+\* Folded over the log; dm maps names to depths.
+RECURSIVE AliasDepths(_, _, _)
+AliasDepths(log, i, dm) ==
+    IF i > Len(log) THEN dm
+    ELSE LET x  == log[i].qn
+             dx == IF x \in DOMAIN dm THEN dm[x] ELSE 0
+             ts == {r.d : r \in {y \in log[i].recs : y.t = "CNAME"}}
+         IN AliasDepths(log, i + 1,
+                        [n \in DOMAIN dm \cup ts \cup {x} |-> IF n \in DOMAIN dm THEN dm[n] ELSE IF n = x THEN dx ELSE dx + 1])
+\* no name deeper than the limit is asked about upstream (the alias chase, not the search for nameserver
+\* addresses, which has its own limit)
+AliasDepthOk(log, qn, lim) ==
+    LET dm == AliasDepths(log, 1, [n \in {} |-> 0]) IN
+    qn \in DOMAIN dm => dm[qn] <= lim.rec
+
 \* the alias targets looked up so far: names some received CNAME record points at that were then asked
 \* about upstream
 AliasTargetsAsked(log) ==
